@@ -1,0 +1,18 @@
+//go:build verif
+
+package pool
+
+// Exported read-only wrappers for the runtime-monitoring harness (property C17,
+// serving histories). They add no behaviour of their own.
+
+// VerifC17LocalAllocation returns the address this node's local pool currently
+// holds for subscriberID, if any.
+func (p *PeerPool) VerifC17LocalAllocation(subscriberID string) (string, bool) {
+	p.localPool.mu.Lock()
+	defer p.localPool.mu.Unlock()
+	ip, ok := p.localPool.allocations[subscriberID]
+	if !ok {
+		return "", false
+	}
+	return ip.String(), true
+}
